@@ -14,6 +14,19 @@ pub fn cycle_check(text: &str, strict: bool, cycles: usize) -> Result<(), (Strin
 }
 
 /// the same for a model that is already in memory (loaded and then edited through the API)
+/// how many `GenericIfData::Double(off, v)` with an integral value the `{:#?}` text of a model shows (the trigger of the known
+/// finding `ifdata-integral-float`: such a value is written without decimal point and, in uninterpreted IF_DATA, read back
+/// as an integer)
+fn integral_doubles(dump: &str) -> usize {
+    let lines: Vec<&str> = dump.lines().map(|l| l.trim()).collect();
+    (0..lines.len().saturating_sub(3)).filter(|&i| {
+        lines[i] == "Double("
+            && lines[i + 3].starts_with(')')
+            && lines[i + 2].strip_suffix(".0,").map_or(false, |v| !v.is_empty() && v.trim_start_matches('-').chars().all(|c| c.is_ascii_digit()))
+    })
+    .count()
+}
+
 pub fn cycle_from_model(m0: a2lfile::A2lFile, strict: bool, cycles: usize) -> Result<(), (String, String)> {
     let w0 = match catch(|| m0.write_to_string()) {
         Ok(w) => w,
@@ -62,7 +75,19 @@ pub fn cycle_from_model(m0: a2lfile::A2lFile, strict: bool, cycles: usize) -> Re
                             }
                             m
                         };
-                        let kind = if norm(&f) == norm(&prev_model) { "reserved-order" } else { "model" };
+                        // known finding `ifdata-integral-float`: the only difference is a float with an integral value in
+                        // generic IF_DATA that came back as the integer of the same value (decimal notation)
+                        let kind = if norm(&f) == norm(&prev_model) {
+                            "reserved-order"
+                        } else if integral_doubles(&format!("{:#?}", prev_model)) > integral_doubles(&format!("{f:#?}")) && {
+                            // ... and nothing else: the reloaded model is stable from here on (model and text)
+                            let w2 = f.write_to_string();
+                            w2 == prev_text && matches!(load(&w2, mode), Loaded::Ok(f3, _) if f3 == f)
+                        } {
+                            "ifdata-integral-float"
+                        } else {
+                            "model"
+                        };
                         return Err((kind.into(), format!("cycle {k} (strict={mode}): reloaded model differs from the model that was written")));
                     }
                     if mode && !log.is_empty() {
